@@ -90,7 +90,7 @@ void ebpps_sample<T,A>::downsample(double theta) {
 
   if (new_c_int == 0.0) {
     // no full items retained
-    if (next_double() > (c_frac / c_)) {
+    if (next_double() >= (c_frac / c_)) { // >=: with c_frac == 0 there is no partial item yet and one must be chosen even for a draw of exactly 0
       swap_with_partial();
     }
     data_.clear();
@@ -145,7 +145,7 @@ void ebpps_sample<T,A>::merge(FwdSample&& other) {
   if (c_frac == 0.0 && other_c_frac == 0.0) {
     partial_item_.reset();
   } else if (c_frac + other_c_frac == 1.0 || c_ == std::floor(c_)) {
-    if (next_double() <= c_frac) {
+    if (next_double() < c_frac) { // strictly: with c_frac == 0 there is no partial item of our own to promote
       if (partial_item_)
         data_.emplace_back(std::move(*partial_item_));
     } else {
